@@ -37,6 +37,12 @@ func c17Gen(seed uint64, run int, tier string) *Case {
 		c.Cfg["nops"] = int64(r.Range(8, 80))
 	}
 	c.Stratum = fmt.Sprintf("dotu=%d", c.Cfg["dotu"])
+	if run%4 == 2 {
+		// long-lived fids: several requests in a row through the same fid
+		c.Cfg["session"] = 1
+		c.Stratum += " session"
+		return c
+	}
 	if run%4 == 3 {
 		// injected operating-system errors: the mutating request of a step may meet a failing os / syscall call
 		c.Cfg["osrate"] = int64(r.Pick(60, 150, 400))
@@ -103,18 +109,18 @@ func splitRel(rel string) []string {
 	return strings.Split(rel, "/")
 }
 
-func c17Exec(x *Ctx) {
+// c17Setup starts Ufs on a generated tree A and builds the identical twin B.
+func c17Setup(x *Ctx) (u *UfsSys, A, B string, r *Rand, ok bool) {
 	c := x.C
 	ms := uint32(c.cfg("msize"))
-	u := NewUfsSys(x, ms, true, 2, 0)
+	u = NewUfsSys(x, ms, true, 2, 0)
 	if u == nil {
-		return
+		return nil, "", "", nil, false
 	}
-	defer u.Cleanup()
-	A := u.Root
-	B := filepath.Join(u.Base, "twin")
+	A = u.Root
+	B = filepath.Join(u.Base, "twin")
 	os.MkdirAll(B, 0o755)
-	r := NewRand(c.Seed ^ 0x1717)
+	r = NewRand(c.Seed ^ 0x1717)
 	tree := genTree(r, int(c.cfg("entries")), 4, true)
 	// short names only: renames build new names from old ones
 	for i := range tree {
@@ -136,12 +142,29 @@ func c17Exec(x *Ctx) {
 	}
 	if err := makeTree(A, keep); err != nil {
 		x.Trouble("tree A: %v", err)
-		return
+		u.Cleanup()
+		return nil, "", "", nil, false
 	}
 	if err := makeTree(B, keep); err != nil {
 		x.Trouble("tree B: %v", err)
+		u.Cleanup()
+		return nil, "", "", nil, false
+	}
+	return u, A, B, r, true
+}
+
+func c17Exec(x *Ctx) {
+	c := x.C
+	if c.cfg("session") != 0 {
+		c17Session(x)
 		return
 	}
+	ms := uint32(c.cfg("msize"))
+	u, A, B, r, ok := c17Setup(x)
+	if !ok {
+		return
+	}
+	defer u.Cleanup()
 	finished := false
 	sc := u.Raw(int(c.cfg("seg")))
 	p := sc.Peer
